@@ -12,7 +12,7 @@ Conformance  : every family x direction x problem x history (single run, split, 
                equal the right-hand side at the piece's end states bit for bit, pieces join, and on rational-solution problems the
                mid-step error stays within a constant of h^4 M4/384 plus the integrator's own error.
 """
-from vf import odecore, core, dense_events, gen, scen
+from vf import modelreplay, odecore, core, dense_events, gen, scen
 
 LEVEL = "model_checking"
 PREFIX = ("C06.",)
@@ -64,6 +64,9 @@ def check(run, replay=None):
                 "(single, split with a repeated target, terminal event + continuation, fault + resume), dense output on; every grid point and "
                 "3 inner points per step are queried (scalar and array form); non-trivial = scenario with >= 3 pieces; distinct by "
                 "(method, span, problem, history)")
+    if replay and isinstance(replay.get("scenario"), dict) and "modelreplay" in replay["scenario"]:
+        modelreplay.phase(run, [], "C06", ('Pieces',), replay=replay["scenario"]["modelreplay"])
+        return
     if replay:
         scs = odecore.replay_scenarios(replay)
     else:
@@ -109,5 +112,8 @@ def check(run, replay=None):
         elif "Fourth" in b["clause"]:
             detail["mid"] = c["mids"][k - 1] if 1 <= k <= len(c["mids"]) else None
         run.violation(b["clause"], odecore.describe(sc) + " t0=%s" % sc["t0"], detail, replay=sc)
+    if not replay:
+        # spec -> code: behaviours of the design model replayed on the real code; the dense pieces must be the model's (one per recorded step, in order) at every API return
+        modelreplay.phase(run, ['OdeSystemSim_fixed_nofault'], "C06", ('Pieces',), keep=None)
     run.assumptions += ["histories keep one direction per system (the 'containing step' is ambiguous when steps overlap, DESIGN.md section 10)",
                         "the O(h^4) clause is decided on the two rational-solution problems only; bound constant DenseMidQuotient = 8"]
